@@ -17,7 +17,7 @@ import engineio.async_socket
 import socketio
 from socketio import exceptions as sio_exc
 
-from . import refcodec
+from . import refcodec, vloop
 from .tokens import val, tok, toks, TOKENS
 
 assert socketio.__file__.startswith('/repo/src/'), socketio.__file__
@@ -93,7 +93,7 @@ class SrvAdapter:
     def __init__(self, cfg):
         self.cfg = cfg
         self.is_async = bool(cfg.get('asyncio'))
-        self.loop = asyncio.new_event_loop() if self.is_async else None
+        self.loop = vloop.new_loop() if self.is_async else None
         self.tap = _LogTap()
         self.reset()
 
